@@ -25,6 +25,7 @@ U.externs = ['ide', 'syntax', 'ecow', 'rowan', 'salsa', 'id_arena', 'indexmap']
 U.repo_build = ['-p', 'ide']
 U.flags = ['--no-trait-conflicts']
 U.desugar_for = True
+U.inline_and_then = True   # R13
 U.inline_mod_uses = '#[allow(unused_imports)] use crate::index::context::*;\n#[allow(unused_imports)] use crate::index::scope::*;\n'
 U.delete_stmt_macros = {'tracing::debug', 'tracing::info', 'tracing::warn', 'tracing::error', 'tracing::trace'}
 U.macro_replacements = {'format': 'crate::vprelude::opaque_string()', 'eco_format': 'crate::vprelude::opaque_eco_string()'}
@@ -178,8 +179,68 @@ pub assume_specification [syntax::ast::Defset::statement_list] (s: &syntax::ast:
 pub assume_specification [syntax::ast::Foreach::body] (s: &syntax::ast::Foreach) -> (r: Option<syntax::ast::StatementList>) ensures r.is_some();
 ''')
 
-# ----------------------------------------------------------------------------- bang_operator.rs (first round: assumed frame contract)
+# ----------------------------------------------------------------------------- bang_operator.rs
+# tree-shape assumption: the parser opens a BangOperator node only at a bang-operator token (grammar::value::bang_operator is called from
+# simple_value under `kind.is_bang_operator()`), so BangOperator::kind() is a bang kind (or None for a damaged tree)
+U.append(BO, '''
+pub open spec fn is_bang_kind(k: syntax::syntax_kind::SyntaxKind) -> bool {
+    k == syntax::syntax_kind::SyntaxKind::XAdd
+    || k == syntax::syntax_kind::SyntaxKind::XAnd
+    || k == syntax::syntax_kind::SyntaxKind::XCast
+    || k == syntax::syntax_kind::SyntaxKind::XCon
+    || k == syntax::syntax_kind::SyntaxKind::XDag
+    || k == syntax::syntax_kind::SyntaxKind::XDiv
+    || k == syntax::syntax_kind::SyntaxKind::XEmpty
+    || k == syntax::syntax_kind::SyntaxKind::XEq
+    || k == syntax::syntax_kind::SyntaxKind::XExists
+    || k == syntax::syntax_kind::SyntaxKind::XFilter
+    || k == syntax::syntax_kind::SyntaxKind::XFind
+    || k == syntax::syntax_kind::SyntaxKind::XFoldl
+    || k == syntax::syntax_kind::SyntaxKind::XForEach
+    || k == syntax::syntax_kind::SyntaxKind::XGe
+    || k == syntax::syntax_kind::SyntaxKind::XGetDagArg
+    || k == syntax::syntax_kind::SyntaxKind::XGetDagName
+    || k == syntax::syntax_kind::SyntaxKind::XGetDagOp
+    || k == syntax::syntax_kind::SyntaxKind::XGt
+    || k == syntax::syntax_kind::SyntaxKind::XHead
+    || k == syntax::syntax_kind::SyntaxKind::XIf
+    || k == syntax::syntax_kind::SyntaxKind::XInitialized
+    || k == syntax::syntax_kind::SyntaxKind::XInterleave
+    || k == syntax::syntax_kind::SyntaxKind::XIsA
+    || k == syntax::syntax_kind::SyntaxKind::XLe
+    || k == syntax::syntax_kind::SyntaxKind::XListConcat
+    || k == syntax::syntax_kind::SyntaxKind::XListFlatten
+    || k == syntax::syntax_kind::SyntaxKind::XListRemove
+    || k == syntax::syntax_kind::SyntaxKind::XListSplat
+    || k == syntax::syntax_kind::SyntaxKind::XLog2
+    || k == syntax::syntax_kind::SyntaxKind::XLt
+    || k == syntax::syntax_kind::SyntaxKind::XMul
+    || k == syntax::syntax_kind::SyntaxKind::XNe
+    || k == syntax::syntax_kind::SyntaxKind::XNot
+    || k == syntax::syntax_kind::SyntaxKind::XOr
+    || k == syntax::syntax_kind::SyntaxKind::XRange
+    || k == syntax::syntax_kind::SyntaxKind::XRepr
+    || k == syntax::syntax_kind::SyntaxKind::XSetDagArg
+    || k == syntax::syntax_kind::SyntaxKind::XSetDagName
+    || k == syntax::syntax_kind::SyntaxKind::XSetDagOp
+    || k == syntax::syntax_kind::SyntaxKind::XShl
+    || k == syntax::syntax_kind::SyntaxKind::XSize
+    || k == syntax::syntax_kind::SyntaxKind::XSra
+    || k == syntax::syntax_kind::SyntaxKind::XSrl
+    || k == syntax::syntax_kind::SyntaxKind::XStrConcat
+    || k == syntax::syntax_kind::SyntaxKind::XSub
+    || k == syntax::syntax_kind::SyntaxKind::XSubst
+    || k == syntax::syntax_kind::SyntaxKind::XSubstr
+    || k == syntax::syntax_kind::SyntaxKind::XTail
+    || k == syntax::syntax_kind::SyntaxKind::XToLower
+    || k == syntax::syntax_kind::SyntaxKind::XToUpper
+    || k == syntax::syntax_kind::SyntaxKind::XXor
+}
+pub assume_specification [syntax::ast::BangOperator::kind] (s: &syntax::ast::BangOperator) -> (r: Option<syntax::syntax_kind::SyntaxKind>)
+    ensures r is Some ==> is_bang_kind(r.unwrap());
+''')
+
 U.insert_in(BO, 'impl', '<ast::BangOperator as Indexable>', '    open spec fn pre(&self, ctx: &IndexCtx) -> bool { true }')
-U.fn(BO, '<ast::BangOperator as Indexable>::index', attrs=['external_body'])   # closures capturing `ctx` mutably are unsupported by Verus
+U.fn(BO, '<ast::BangOperator as Indexable>::index', attrs=['exec_allows_no_decreases_clause'], loops={i: dict(invariant=LOOPINV) for i in range(5)})
 for f in ('expect_type_annotation', 'unexpect_type_annotation', 'expect_values', 'index_values', 'index_values_and_check_types'):
     U.fn(BO, f, attrs=['external_body'], **FRAME)
